@@ -44,3 +44,5 @@ func memCloseVictim() (spec.Batch, func(segment.Segment, *ref.Content) string) {
 func vecBuildMenu() []spec.Batch { return nil }
 
 func vecBuildOracle(seg segment.Segment, exp *ref.Content) string { return "" }
+
+func refVecDocs() []spec.Doc { return nil }
